@@ -15,13 +15,21 @@ from vcheck import Machinery
 _ID = re.compile(r'^([0-9a-f]{4})(\d{4})-0000-0000-0000-(\d{12})$')
 
 CONFIGS = [
-    # (threads, requests per thread, [(t, r) with caller supplied id])
-    (2, 1, []),
-    (2, 2, []),
-    (2, 2, [(1, 2), (2, 1)]),
-    (3, 1, []),
-    (2, 1, [(1, 1)]),
+    # (threads, requests per thread, [(t, r) with caller supplied id], [(t, r) whose body cannot be serialised],
+    #  all requests pass one and the same caller headers dict)
+    (2, 1, [], [], False),
+    (2, 2, [], [], False),
+    (2, 2, [(1, 2), (2, 1)], [], False),
+    (3, 1, [], [], False),
+    (2, 1, [(1, 1)], [], False),
+    (2, 2, [], [(1, 1)], False),
+    (2, 2, [], [], True),
+    (2, 2, [(2, 2)], [(2, 1)], True),
 ]
+
+
+class _Unserialisable:
+    pass
 
 
 class _Resp:
@@ -43,7 +51,7 @@ class _Resp:
 
 def _mc_cfg(nt, reqs):
     return ('SPECIFICATION Spec\nCHECK_DEADLOCK FALSE\nCONSTANTS\n  Threads = {%s}\n  Reqs = %d\n'
-            '  OwnChoices <- OwnChoicesStd\nINVARIANT Unique\nINVARIANT GapFree\nINVARIANT CounterCounts\n'
+            '  OwnChoices <- OwnChoicesStd\n  FailChoices <- FailChoicesStd\nINVARIANT Unique\nINVARIANT GapFree\nINVARIANT CounterCounts\n'
             'INVARIANT MutualExclusion\nPROPERTY AllDone\n' % (', '.join(str(i + 1) for i in range(nt)), reqs))
 
 
@@ -74,8 +82,8 @@ def run(ctx):
     total = 0
     limit = 12000 if ctx.quick else 200000
     try:
-        for nt, reqs, own in CONFIGS:
-            def make_bodies(nt=nt, reqs=reqs, own=own):
+        for nt, reqs, own, fail, shared in CONFIGS:
+            def make_bodies(nt=nt, reqs=reqs, own=own, fail=fail, shared=shared):
                 base = conn_http.HttpConn('http://h:1')
                 impl = base.conn_impl
                 holder['impl'] = impl
@@ -99,6 +107,7 @@ def run(ctx):
                 conns = [base, conn_http.BAuthConn(base, 'u', 'p'), conn_http.HttpConn(base)]
                 import urllib.request
                 bodies = []
+                caller_headers = {'Accept': 'text/plain'} if shared else None     # one dict object for all requests
                 for t in range(1, nt + 1):
                     def body(t=t):
                         c = conns[(t - 1) % len(conns)]
@@ -106,12 +115,18 @@ def run(ctx):
                             if (t, r) in [tuple(x) for x in own]:
                                 mine = 'mine-%d-%d' % (t, r)
                                 c.get('/x', headers={'X-Request-ID': mine, 'X-Mine': mine})
+                            elif (t, r) in [tuple(x) for x in fail]:
+                                try:
+                                    c.post('/x', data={'k': _Unserialisable()}, headers=caller_headers)
+                                except TypeError:
+                                    sch.trace.append({'t': t, 'k': 'fail', 'v': 0})
                             else:
-                                c.get('/x')
+                                c.get('/x', headers=caller_headers)
                     bodies.append(body)
 
                 def finish(trace, chosen):
-                    return {'threads': nt, 'reqs': reqs, 'own': [list(x) for x in own],
+                    return {'threads': nt, 'reqs': reqs, 'own': [list(x) for x in own], 'fail': [list(x) for x in fail],
+                            'shared_headers': shared,
                             'ev': [{'t': e['t'], 'k': e['k'], 'v': (e['v'] if e['v'] is not None else -9)}
                                    for e in trace], 'schedule': chosen}
                 return bodies, finish, None
@@ -121,7 +136,7 @@ def run(ctx):
                 execs.append(res)
             total += len(execs)
             groups.setdefault((nt, reqs), []).extend(execs)
-            ctx.extra.setdefault('schedules_per_config', {})['%dx%d own=%s' % (nt, reqs, own)] = len(execs)
+            ctx.extra.setdefault('schedules_per_config', {})['%dx%d own=%s fail=%s shared_headers=%s' % (nt, reqs, own, fail, shared)] = len(execs)
             if len(execs) >= limit:
                 ctx.extra['schedule_limit_hit'] = True
     finally:
@@ -131,13 +146,13 @@ def run(ctx):
     nviol = 0
     for (nt, reqs), execs in groups.items():
         # negative self-tests (synthetic): duplicate id; gap
-        dup = {'threads': nt, 'reqs': reqs, 'own': [], 'ev': [{'t': 1 + (i % nt), 'k': 'send', 'v': 0} for i in range(nt * reqs)], 'schedule': []}
-        gap = {'threads': nt, 'reqs': reqs, 'own': [], 'ev': [{'t': 1 + (i % nt), 'k': 'send', 'v': i + 1} for i in range(nt * reqs)], 'schedule': []}
+        dup = {'threads': nt, 'reqs': reqs, 'own': [], 'fail': [], 'ev': [{'t': 1 + (i % nt), 'k': 'send', 'v': 0} for i in range(nt * reqs)], 'schedule': []}
+        gap = {'threads': nt, 'reqs': reqs, 'own': [], 'fail': [], 'ev': [{'t': 1 + (i % nt), 'k': 'send', 'v': i + 1} for i in range(nt * reqs)], 'schedule': []}
         allc = execs + [dup, gap]
         path = os.path.join(ctx.tmp, 'c16_%d_%d.ndjson' % (nt, reqs))
         with open(path, 'w') as f:
             for c in allc:
-                f.write(json.dumps({k: c[k] for k in ('threads', 'reqs', 'own', 'ev')}) + '\n')
+                f.write(json.dumps({k: c[k] for k in ('threads', 'reqs', 'own', 'fail', 'ev')}) + '\n')
         r = ctx.tlc('http/ReqIdJudge.tla', 'SPECIFICATION Spec\nCHECK_DEADLOCK FALSE\nCONSTANTS\n  NT = %d\n  Reqs = %d\n' % (nt, reqs),
                     env={'CASES': path}, workers=16, timeout=3600)
         verd = {}
@@ -155,7 +170,8 @@ def run(ctx):
             if v == 'REJECT-IDS':
                 nviol += 1
                 sends = [(e['t'], e['v']) for e in c['ev'] if e['k'] == 'send']
-                ctx.violation({'threads': nt, 'reqs': reqs, 'own': c['own'], 'schedule': c['schedule']},
+                ctx.violation({'threads': nt, 'reqs': reqs, 'own': c['own'], 'fail': c['fail'],
+                               'shared_headers': c.get('shared_headers', False), 'schedule': c['schedule']},
                               'schedule %s of %d threads x %d requests: ids that reached the opener (thread, number; -1 = '
                               'caller id unchanged, -2 = caller id altered/consumed, -3 = malformed): %s' % (
                                   c['schedule'], nt, reqs, sends))
@@ -180,6 +196,8 @@ def replay(ctx, case):
     conn_http.threading = sched.ThreadingShim(sch)
     try:
         nt, reqs, own = case['threads'], case['reqs'], [tuple(x) for x in case['own']]
+        fail = [tuple(x) for x in case.get('fail', [])]
+        caller_headers = {'Accept': 'text/plain'} if case.get('shared_headers') else None
         base = conn_http.HttpConn('http://h:1')
         impl = base.conn_impl
         holder['impl'] = impl
@@ -199,8 +217,13 @@ def replay(ctx, case):
                 for r in range(1, reqs + 1):
                     if (t, r) in own:
                         c.get('/x', headers={'X-Request-ID': 'mine-%d-%d' % (t, r)})
+                    elif (t, r) in fail:
+                        try:
+                            c.post('/x', data={'k': _Unserialisable()}, headers=caller_headers)
+                        except TypeError:
+                            pass
                     else:
-                        c.get('/x')
+                        c.get('/x', headers=caller_headers)
             bodies.append(body)
         sch.run(bodies, case['schedule'])
     finally:
@@ -209,6 +232,8 @@ def replay(ctx, case):
     gen = [s for s in seen if s and not str(s).startswith('mine-')]
     nums = sorted(int(str(s)[-12:]) for s in gen)
     mine = [s for s in seen if s and str(s).startswith('mine-')]
-    if nums != list(range(len(gen))) or len(gen) != nt * reqs - len(own) or len(mine) != len(own):
+    nf = len(fail)
+    if (len(set(nums)) != len(nums) or (nums and nums[-1] > len(gen) + nf - 1) or len(gen) != nt * reqs - len(own) - nf
+            or len(mine) != len(own)):
         return 'ids %s' % seen
     return None
